@@ -12,8 +12,10 @@ TRIANGLE = {"euclidean", "manhattan", "chebyshev", "average_euclidean", "gower",
             "lorentzian", "log_euclidean", "hellinger", "matusita", "canberra", "soergel"}
 DOMAIN = {
     "real": ["squared_euclidean", "euclidean", "average_euclidean", "manhattan", "chebyshev", "gower", "non_intersection",
-             "hamming", "log_euclidean", "log_squared_euclidean", "gaussian", "lorentzian", "mean_censored_euclidean", "hassanat"],
-    "nonneg": ["hellinger", "matusita", "squared_chord"],
+             "hamming", "log_euclidean", "log_squared_euclidean", "gaussian", "lorentzian", "hassanat"],
+    # mean_censored_euclidean divides by the number of coordinates with x_i + y_i != 0: on sign-mixed vectors that
+    # count can be 0 (x = -y), so its domain is the non-negative vectors (after the EPSILON shift every sum is > 0)
+    "nonneg": ["hellinger", "matusita", "squared_chord", "mean_censored_euclidean"],
     "prob": ["bhattacharyya", "kullback_leibler", "k_divergence"],
 }
 ALL = ["additive_symmetric", "average_euclidean", "bhattacharyya", "bray_curtis", "canberra", "chebyshev", "chi_squared",
